@@ -31,8 +31,11 @@ def plan(tier):
     W = worlds.curated()
     if tier == "quick":
         names = ["chain", "csum-mid", "csum-deep", "csum-two-b", "csum-toggle", "fan3", "always", "ifcreate", "dynamic", "default", "dovar", "fail"]
-        return [(W[n], alphabet, 3, 2) for n in names]
-    p = [(W[n], alphabet, 5 if n in ("chain", "csum-mid", "ifcreate", "dynamic", "csum-two", "csum-two-b") else 4)
+        # interrupted builds ("earlier partial builds"): at most one kill per history, worlds chosen for one mechanism each
+        K = ["chain", "csum-mid", "dynamic", "chain-append"]
+        return [(W[n], alphabet, 3, 2) for n in names if n not in K] + [(W[n], alphabet_k, 3, 2) for n in K]
+    p = [(W[n], alphabet_k if n in ("chain", "csum-mid", "dynamic", "chain-append", "diamond", "csum-deep", "dovar", "default") else alphabet,
+          5 if n in ("chain", "csum-mid", "ifcreate", "dynamic", "csum-two", "csum-two-b") else 4)
          for n in W]
     G = worlds.generated()
     p += [(G[k], alphabet, 3) for k in sorted(G)]
@@ -43,7 +46,7 @@ def main(tier):
     return e1prop.run_property(
         PID, tier, plan(tier), "rv.props.c01",
         rule="BFS over all histories <= depth d of {redo-ifchange t, redo t, edit source to each other value, touch, "
-             "rm target, switch .do variant} per world, replayed on the real binary; states deduplicated by canonical "
+             "rm target, switch .do variant; in some worlds also: redo-ifchange interrupted by a kill of the whole tree at a script boundary (every target x every position of its script; at most one kill per history)} per world, replayed on the real binary; states deduplicated by canonical "
              "key (files + Files/Deps rows with run ids rank-abstracted + reference-model summary); oracle: after every "
              "exit-0 build command every target in the requested closure equals the from-scratch evaluation",
         assumptions=["sources are not edited while a command runs", "flat single-directory worlds",
